@@ -13,6 +13,7 @@ package main
 
 import (
 	"encoding/json"
+	"fmt"
 	"os"
 	"sort"
 )
@@ -136,4 +137,62 @@ func verifTraceRound(res Resolver, rels []UniRel) {
 	verifRecs = nil
 	b, _ := json.Marshal(map[string]any{"eid": eid, "rels": rs, "recs": recs})
 	verifResLog.Write(append(b, '\n'))
+}
+
+// Parse-state trace: with FOLANG_VERIF_PSLOG set, one JSON line per event is appended to that file.
+// Events: "root" (entry of every root statement), "reset" (psResetTmpCtx, after the reset),
+// "enterTD" / "leaveTD" (psEnterTypeDef / psLeaveTypeDef, after the change).  Every line carries the
+// long-lived state of the parser: scope depth, the names in the ROOT scope, the allocators, the
+// type-definition context and the offside stack.
+
+var verifPSLog *os.File
+var verifPSLogTried bool
+
+func verifTracePS(kind string, ps ParseState) {
+	if !verifPSLogTried {
+		verifPSLogTried = true
+		if p := os.Getenv("FOLANG_VERIF_PSLOG"); p != "" {
+			verifPSLog, _ = os.OpenFile(p, os.O_APPEND|os.O_CREATE|os.O_WRONLY, 0o644)
+		}
+	}
+	if verifPSLog == nil {
+		return
+	}
+	depth := 1
+	root := ps.scope
+	for root.Parent != nil {
+		root = root.Parent
+		depth++
+	}
+	keys := func(n int, each func(func(string))) []string {
+		res := make([]string, 0, n)
+		each(func(k string) { res = append(res, k) })
+		sort.Strings(res)
+		return res
+	}
+	vars := keys(len(root.SDict.VarFacMap.Fdict), func(f func(string)) {
+		for k := range root.SDict.VarFacMap.Fdict {
+			f(k)
+		}
+	})
+	recs := keys(len(root.SDict.RecFacMap.Fdict), func(f func(string)) {
+		for k := range root.SDict.RecFacMap.Fdict {
+			f(k)
+		}
+	})
+	types := keys(len(root.SDict.TypeFacMap.Fdict), func(f func(string)) {
+		for k := range root.SDict.TypeFacMap.Fdict {
+			f(k)
+		}
+	})
+	offside := append([]int{}, ps.offsideCol...)
+	b, _ := json.Marshal(map[string]any{
+		"ev": kind, "tt": fmt.Sprintf("%v", ps.tkz.current.ttype), "depth": depth,
+		"vars": vars, "recs": recs, "types": types,
+		"tva": ps.tvc.tva.seqId, "res": len(ps.tvc.resolver.eid.Fdict),
+		"tdtva": ps.tdctx.tva.seqId, "insideTD": ps.tdctx.insideTD,
+		"tddefined": len(ps.tdctx.defined.Fdict), "tdalloced": len(ps.tdctx.allocedDict.Fdict),
+		"offside": offside, "tmp": uniqueId,
+	})
+	verifPSLog.Write(append(b, '\n'))
 }
